@@ -147,6 +147,27 @@ theorem cert_log_eq_wire {msg : Bytes} {cs : List Bytes} (h : parseCerts msg = s
     | nil => exact absurd rfl hne
     | cons x xs => rfl
 
+/-- TLS 1.3 Certificate: the message is  4 header bytes ‖ 00 (empty request context) ‖ len24 ‖ entries,  the entries are
+    exactly `len24 ‖ cert_data ‖ len16 ‖ extensions` back to back, and the logged leaf ‖ chain are the `cert_data` fields
+    of ALL entries, in wire order (nothing skipped, shifted or duplicated). -/
+theorem cert13_log_eq_wire {msg : Bytes} {r : Cert13} (h : parseCerts13 msg = some r) :
+    ∃ hdr a b c lst es, msg = hdr ++ (0 :: a :: b :: c :: lst) ∧ hdr.length = 4 ∧
+      a.toNat * 65536 + b.toNat * 256 + c.toNat = lst.length ∧ Framed13 lst es ∧
+      (es ≠ [] → (cert13Log r).leaf :: (cert13Log r).chain = es.map (·.1)) ∧
+      (es = [] → (cert13Log r).leaf = [] ∧ (cert13Log r).chain = []) := by
+  obtain ⟨hdr, a, b, c, lst, es, h1, h2, h3, h4, h5⟩ := parseCerts13_spec h
+  refine ⟨hdr, a, b, c, lst, es, h1, h2, h3, h4, ?_, ?_⟩
+  · intro hne
+    unfold cert13Log
+    rw [h5]
+    cases es with
+    | nil => exact absurd rfl hne
+    | cons x xs => rfl
+  · intro he
+    unfold cert13Log
+    rw [h5, he]
+    exact ⟨rfl, rfl⟩
+
 theorem fin_log_eq_wire {msg v : Bytes} (h : parseFin msg = some v) :
     ∃ t a b c, msg = t :: a :: b :: c :: v ∧ a.toNat * 65536 + b.toNat * 256 + c.toNat = v.length := by
   unfold parseFin at h
@@ -163,5 +184,9 @@ theorem fin_log_eq_wire {msg v : Bytes} (h : parseFin msg = some v) :
 example : parseCerts [11, 0, 0, 7, 0, 0, 4, 0, 0, 1, 9] = some [[9]] := by
   simp [parseCerts, readU24, certEntries]
 example : parseFin [20, 0, 0, 2, 1, 2] = some [1, 2] := by decide
+-- two entries (leaf `09` with an ignored extension, then `07 08`): leaf and chain come out in wire order
+example : parseCerts13 [11, 0, 0, 0, 0, 0, 0, 17, 0, 0, 1, 9, 0, 4, 0x12, 0x34, 0, 0, 0, 0, 2, 7, 8, 0, 0]
+    = some ⟨[[9], [7, 8]], false, false⟩ := by
+  simp [parseCerts13, readVec8, readU8, readVec24, readU24, takeN, cert13Entries, splitExts, cert13LeafExts, u16]
 
 end ZV.C28
